@@ -1,6 +1,6 @@
 (* C04 - The attack loop obeys its pacer and its duration. *)
 From Coq Require Import ZArith List Bool Lia.
-From V Require Import Model.AttackLTS Proofs.AttackProofs Model.Accept Proofs.AcceptProofs.
+From V Require Import Model.Pacer Model.AttackLTS Proofs.AttackProofs Model.Accept Proofs.AcceptProofs Proofs.LoopScheduleProofs.
 Import ListNotations.
 Open Scope Z_scope.
 
@@ -48,6 +48,47 @@ Proof.
   intros l s'' H2. exact (epilogue_closed_lemma c s' l s'' E H2).
 Qed.
 Print Assumptions stop_means_stop.
+
+(* "So at no moment have more hits started than the pacer has released", against the pacer's own
+   schedule: the closed-loop theorem of C01 (closed_loop_upper) is about an idealised loop; this is
+   the same statement for the loop of lib/attack.go as the LTS models it - any number of workers, the
+   rendezvous on ticks, the non-blocking select, Stop calls, wake-ups as late as the environment
+   likes.  For every pacer whose answers keep a per-call contract (admissibility Adm is monotone in
+   time and carried from a consultation to the instant the wait is over), every reachable state is
+   admissible at its own clock, every released tick was admissible when it was released, and the
+   hits started (sequence numbers taken) never exceed the admissible count. *)
+Theorem loop_keeps_pacer_schedule :
+  forall (pace : Z -> Z -> outcome) (Adm Dom : Z -> Z -> Prop),
+  (forall t t' k, Adm t k -> t <= t' -> Adm t' k) ->
+  (forall t k w, Dom t k -> Adm t k -> pace t k = Wait w -> Adm (t + Z.max w 0) (k + 1)) ->
+  Adm 0 0 ->
+  forall c s, reachable c s ->
+  (forall e h w, In (e, h, w, false) (paces s) -> Dom e h /\ pace e h = Wait w) ->
+  Adm (now s) (count s) /\
+  Forall (fun p => let '(e, h, w, t) := p in Adm t (h + 1)) (hist s) /\
+  seq s <= count s.
+Proof. exact loop_on_schedule_lemma. Qed.
+Print Assumptions loop_keeps_pacer_schedule.
+
+(* every released tick and the answer waiting for its tick are answers the pacer really gave *)
+Theorem ticks_are_pacer_answers : forall c s, reachable c s ->
+  (forall e h w t, In (e, h, w, t) (hist s) -> In (e, h, w, false) (paces s)) /\
+  (forall e h w, pending s = Some (e, h, w) -> In (e, h, w, false) (paces s)).
+Proof. exact reach_answers. Qed.
+Print Assumptions ticks_are_pacer_answers.
+
+(* non-vacuity: a run with two workers whose pacer answers are those of the constant pacer model
+   (1 hit per 4 ns) meets the hypotheses, and the conclusion says 2 * 4 <= 1 * 9 *)
+Example loop_schedule_example :
+  let c := {| maxw := 2; initw := 2; du := 0; fails := [] |} in
+  exists s, run c (init c) [CallPace; Pace 4 false; Advance 4; Wake; Sel2Tick; AssignSeq; CallPace; Pace 4 false;
+                            Advance 5; Wake; Sel2Tick; AssignSeq; CallPace; Pace 3 false] = Some s /\
+            (forall e h w, In (e, h, w, false) (paces s) -> const_pace 1 4 e h = Wait w) /\
+            (now s, count s, seq s) = (9, 2, 2).
+Proof.
+  eexists. split; [vm_compute; reflexivity|]. split; [|reflexivity].
+  cbn [paces]. intros e h w [H|[H|[H|[]]]]; injection H as <- <- <-; reflexivity.
+Qed.
 
 Example c04_example :
   let c := {| maxw := 1; initw := 1; du := 10; fails := [] |} in
